@@ -355,6 +355,8 @@ func (w *world) do(g int, c call, wk *worker) {
 		}
 	case "Len":
 		r.L = w.p.Len()
+	case "Empty":
+		w.p.Empty()
 	case "MembersLen":
 		r.L = w.p.MembersLen(w.e.node[c.Node])
 	case "Others":
@@ -509,7 +511,8 @@ func runForced(fl map[string]string) error {
 	return nil
 }
 
-// vh C37 free --num N --base I --out trace.ndjson : seeded random histories of 2-4 goroutines, delays at the boundaries
+// vh C37 free --num N --base I --out trace.ndjson [--empty P]: seeded random histories of 2-4 goroutines, delays at the
+// boundaries; --empty P: P percent of the calls are Empty() (it has no boundary the harness could hold it at)
 func runFree(fl map[string]string) error {
 	out, err := h.NewOut(fl["out"])
 	if err != nil {
@@ -519,7 +522,8 @@ func runFree(fl map[string]string) error {
 	num, _ := strconv.Atoi(fl["num"])
 	base0, _ := strconv.Atoi(fl["base"])
 	seed, _ := strconv.ParseInt(os.Getenv("VERIF_SEED"), 10, 64)
-	rng := rand.New(rand.NewSource(seed*7919 + 37))
+	empty, _ := strconv.Atoi(fl["empty"])
+	rng := rand.New(rand.NewSource(seed*7919 + 37 + int64(empty)))
 	e := newEnv()
 	ncalls := 0
 	for i := 0; i < num; i++ {
@@ -547,6 +551,11 @@ func runFree(fl map[string]string) error {
 			for j := range calls[k] {
 				other := addrs[rng.Intn(3)]
 				onode := nodes[rng.Intn(10)/8]
+				if empty > 0 && rng.Intn(100) < empty {
+					calls[k][j] = call{"Empty", "none", "none"}
+					ncalls++
+					continue
+				}
 				switch x := rng.Intn(100); {
 				case x < 33:
 					calls[k][j] = call{"Leave", focus, "none"}
